@@ -313,7 +313,7 @@ func genCase(t *rapid.T, thorough bool) Case {
 
 func TestC11Threads(t *testing.T) {
 	h.Run(t, h.Spec[Case]{
-		Property: "C11", Name: "threads", Quick: 1200, Thorough: 24000, Timeout: 60 * time.Second,
+		Property: "C11", Name: "threads", Quick: 3000, Thorough: 60000, Timeout: 60 * time.Second,
 		Rule: "Compare / CompareWeighted / FBP / TBE on a reference tree and a stream of 1..40 trees (fresh parses), thread counts {2,3,4,8,16,64}, GOMAXPROCS {1,2,16}, producer goroutine pausing by a drawn pattern (Gosched / 1us / 200us), optional error record or taxon-mismatched tree first / middle / last / several (up to 12); a quarter of the streams come from utils.ReadMultiTrees on a text (one in six of those empty); TBE in half of the cases with raw tree, moved-taxa and per-branch tables in a log file (compared after masking dates and the CPU count); binary built with -race (a report ends the process: violation); results compared per tree id with the 1-thread run, twice; watchdog 60 s; non-trivial = #trees >= 2*threads, or a bad record in a stream of >= 3 trees",
 		Gen:   genCase,
 		Check: check,
